@@ -403,6 +403,8 @@ _C0_KNOWN = {0x21: (8, at5_zone_status_record, "zones"),
 def at5_c0_status(data):
     """Reading of a 0xC0 frame's data for sub types 0x21/0x23/0x33."""
     sub, normal, rlen, rcount, body = c0_subheader(data)
+    if sub in (0x20, 0x22, 0x32):
+        return UNDEC  # client->console control messages; not a console report
     if sub not in _C0_KNOWN:
         return {"sub": sub, "unknown": True, "body": bytes(body)}
     if len(body) != normal + rlen * rcount:
@@ -634,6 +636,8 @@ def read_status(gen, typ, data):
             return at4_ac_status(data)
         if typ == 0x37:
             return at4_timer_status(data)
+        if typ in (0x2A, 0x2C, 0x36):
+            return UNDEC  # client->console control messages
         if typ == 0x1F:
             sid, sub = _ext(data)
             if sid == 0xFF11:
@@ -644,6 +648,8 @@ def read_status(gen, typ, data):
                 return error_info(sub)
             if sid == 0xFF30:
                 return console_version(sub, "|")
+            if sid == 0xFF20:
+                return UNDEC  # quick timer command (client->console, undocumented)
             return {"ext_unknown": sid, "body": bytes(sub)}
         return {"unknown": typ, "body": bytes(data)}
     if typ == 0xC0:
@@ -658,6 +664,8 @@ def read_status(gen, typ, data):
             return error_info(sub)
         if sid == 0xFF30:
             return console_version(sub, ",")
+        if sid == 0xFF49:
+            return UNDEC  # quick timer command (client->console, undocumented)
         return {"ext_unknown": sid, "body": bytes(sub)}
     return {"unknown": typ, "body": bytes(data)}
 
